@@ -2068,6 +2068,17 @@ def clean_dictionary(ddct):
             if key != "__line__" and not isinstance(value, dict):
                 raise RuntimeError(
                     "attrs for argument {} must be a dictionary".format(key))
+            if key != "__line__":
+                for aname, avalue in value.items():
+                    if isinstance(avalue, (list, dict)):
+                        raise RuntimeError(
+                            "attribute {} of argument {} must be a scalar value"
+                            .format(aname, key))
+    if "fattrs" in ddct and ddct["fattrs"]:
+        for aname, avalue in ddct["fattrs"].items():
+            if isinstance(avalue, (list, dict)):
+                raise RuntimeError(
+                    "attribute {} in fattrs must be a scalar value".format(aname))
     if "fstatements" in ddct and ddct["fstatements"]:
         for key, value in ddct["fstatements"].items():
             if key != "__line__" and not isinstance(value, dict):
